@@ -1,5 +1,6 @@
 import OrsoVerif.Model.PyVal
 import OrsoVerif.Model.Cast
+import OrsoVerif.Model.CastJson
 import OrsoVerif.Drv.C08
 /-! Driver glue for C07: decode a type and a value, run the cast model, encode. -/
 namespace Drv.C07
@@ -53,6 +54,53 @@ def encodeVal : Option Val → PyVal
 
 def noFloatText : List Char → Option UInt64 := fun _ => none
 
+/-- `float(token)` as a table sent by the harness (`[[token, double], …]`): the parameter `fot`. -/
+def fotTable : List PyVal → Option (List (String × UInt64))
+  | [] => some []
+  | .list [.str t, .float b] :: r => do pure ((t, b) :: (← fotTable r))
+  | _ => none
+
+def fotOf (tb : List (String × UInt64)) : List Char → Option UInt64 := fun t => tb.lookup (String.ofList t)
+
+/-- the float rendering as a table (`[[double, text], …]`): the parameter `rep` -/
+def repTable : List PyVal → Option (List (UInt64 × String))
+  | [] => some []
+  | .list [.float b, .str t] :: r => do pure ((b, t) :: (← repTable r))
+  | _ => none
+
+mutual
+def encodeJ : Json.J → PyVal
+  | .null => .none
+  | .bool b => .bool b
+  | .int n => .int n
+  | .float b => .float b
+  | .str s => .str (String.ofList s)
+  | .arr xs => .list (encodeJL xs)
+def encodeJL : List Json.J → List PyVal
+  | [] => []
+  | x :: xs => encodeJ x :: encodeJL xs
+end
+
+mutual
+def decodeJ : PyVal → Option Json.J
+  | .none => some .null
+  | .bool b => some (.bool b)
+  | .int n => some (.int n)
+  | .float b => some (.float b)
+  | .str s => some (.str s.toList)
+  | .list xs => (decodeJL xs).map .arr
+  | _ => none
+def decodeJL : List PyVal → Option (List Json.J)
+  | [] => some []
+  | x :: xs => match decodeJ x, decodeJL xs with
+    | some a, some b => some (a :: b)
+    | _, _ => none
+end
+
+def decodeWs : PyVal → Option Json.Ws
+  | .list [.str a, .str b, .str c] => some ⟨a.toList, b.toList, c.toList⟩
+  | _ => none
+
 def handle (op : String) (args : List PyVal) : Option (List PyVal) :=
   match op, args with
   | "cast", [t, v] => do
@@ -71,6 +119,31 @@ def handle (op : String) (args : List PyVal) : Option (List PyVal) :=
     match parseArray noFloatText t vs with
     | .ok rs => pure [.list [.str "ok", .list (rs.map encodeVal)]]
     | .error e => pure [.list [.str "err", .str e.name]]
+  | "arraytext", [t, v, .list tb] => do
+    -- ARRAY.parse(text or bytes, element_type=t): the model reads the JSON text itself
+    let t ← (match t with | .none => some none | t => (decodeTy t).map some)
+    let v ← decodeVal v
+    let tb ← fotTable tb
+    match v with
+    | some x =>
+      match Json.parseArrayText (fotOf tb) t x with
+      | some (.ok rs) => pure [.list [.str "ok", .list (rs.map encodeVal)]]
+      | some (.error e) => pure [.list [.str "err", .str e.name]]
+      | none => pure [.list [.str "unsupported"]]
+    | none => none
+  | "jsonread", [.str s, .list tb] => do
+    -- the reader alone (mirror of orjson.loads, orso out of the picture)
+    let tb ← fotTable tb
+    match Json.readJson (fotOf tb) s.toList with
+    | .ok j => pure [.list [.str "ok", encodeJ j]]
+    | .error .bad => pure [.list [.str "err"]]
+    | .error .unsupported => pure [.list [.str "unsupported"]]
+  | "jsonrender", [j, w, .list rt] => do
+    -- the writer alone (mirror of orjson.dumps / json.dumps)
+    let j ← decodeJ j
+    let w ← decodeWs w
+    let rt ← repTable rt
+    pure [.str (String.ofList (Json.render w (fun b => ((rt.lookup b).getD "?").toList) j))]
   | _, _ => none
 
 end Drv.C07
